@@ -448,6 +448,14 @@ pub fn validate(text: &str, schema: &Schema) -> Problems {
                         Some(Kind::Scalar | Kind::Enum | Kind::Input) => {}
                         _ => v.p("variable-type", format!("variable ${name}: {} is not an input type", ty)),
                     }
+                    // Values of Correct Type also holds for default values (June 2018, 5.6.1)
+                    if let Some(dv) = &vd.default_value {
+                        let before = v.problems.len();
+                        v.constant(&dv.value, &ty, &format!("default value of ${name}"));
+                        for p in v.problems[before..].iter_mut() {
+                            p.0 = format!("default-{}", p.0);
+                        }
+                    }
                     if v.declared.insert(name.clone(), ty).is_some() {
                         v.p("duplicate-variable", format!("variable ${name} declared twice"));
                     }
